@@ -137,3 +137,68 @@ func (c *Ctl) Kill() bool {
 	close(c.CrashedCh)
 	return true
 }
+
+// ---------------------------------------------------------------- calls by origin
+//
+// Skip(sub): numbered calls made with a function whose name contains sub on their stack are
+// delegated without being numbered (never fail, do not appear in Info): the harness' own polling
+// reads (sim.WaitTasks -> Wallets) must not shift the numbers of the wallet's calls.
+// Hold(sub): such calls block until Release: the background worker is kept from starting its work
+// inside the window of the API call that queued it, so that ALL its calls fall into the window of
+// the operation that waits for it, at the same numbers in every run.
+
+func (c *Ctl) Skip(sub string) {
+	c.mu.Lock()
+	c.skipSub = sub
+	c.filtered = c.skipSub != "" || c.holdSub != ""
+	c.mu.Unlock()
+}
+
+func (c *Ctl) Hold(sub string) {
+	c.mu.Lock()
+	if c.holdSub == "" {
+		c.holdCh = make(chan struct{})
+	}
+	c.holdSub = sub
+	c.filtered = true
+	c.mu.Unlock()
+}
+
+func (c *Ctl) Release() {
+	c.mu.Lock()
+	if c.holdSub != "" {
+		c.holdSub = ""
+		close(c.holdCh)
+	}
+	c.filtered = c.skipSub != ""
+	c.mu.Unlock()
+}
+
+func stackHas(sub string) bool {
+	pcs := make([]uintptr, 64)
+	n := runtime.Callers(4, pcs)
+	frames := runtime.CallersFrames(pcs[:n])
+	for {
+		f, more := frames.Next()
+		if strings.Contains(f.Function, sub) {
+			return true
+		}
+		if !more {
+			return false
+		}
+	}
+}
+
+// filter is called first by callKey; true: do not number this call.
+func (c *Ctl) filter() bool {
+	c.mu.Lock()
+	on, skip, hold, ch := c.filtered, c.skipSub, c.holdSub, c.holdCh
+	c.mu.Unlock()
+	if !on {
+		return false
+	}
+	if hold != "" && stackHas(hold) {
+		<-ch
+	}
+	return skip != "" && stackHas(skip)
+}
